@@ -66,10 +66,13 @@ Theorem C15_secured_only_by_handshake : forall (require_tls : option bool) (atte
 Proof. exact secured_only_by_handshake. Qed.
 Print Assumptions C15_secured_only_by_handshake.
 
-(* ---- the DNS reference the code uses is the DNS name the endpoint knows *)
-Theorem C15_dns_reference : forall (passive : bool) (peer_name peer_addr : N),
-  peer_dnsid passive peer_name peer_addr = known_dns_name passive peer_name peer_addr.
-Proof. exact dns_reference. Qed.
+(* ---- the DNS reference the code uses, whenever it is a non-empty name, is the DNS
+        name the endpoint knows (an empty name is no name: the code's reference is
+        then falsy and the specification has none) *)
+Theorem C15_dns_reference : forall (passive : bool) (peer_name peer_addr d : N),
+  known_dns_name passive peer_name peer_addr = Some d <->
+  (peer_dnsid passive peer_name peer_addr = Some d /\ d <> 0).
+Proof. exact dns_reference_some. Qed.
 Print Assumptions C15_dns_reference.
 
 (* ---- authentication, clause 1 (unconditional): an accepted certificate presents
@@ -97,6 +100,13 @@ Theorem C15_authn_node :
     rn = true -> In node uris.
 Proof. exact authn_node. Qed.
 Print Assumptions C15_authn_node.
+(* empty announced node ID (identifier 0): URI SANs that are not the empty ID contradict it *)
+Example C15_authn_empty_node_id :
+  authn_refuses true 1 1 0 [] [] [22] false false = true
+  /\ authn_refuses true 1 1 0 [] [] [22] false true = true
+  /\ authn_refuses true 1 1 0 [] [] [] false true = true
+  /\ authn_refuses true 1 1 0 [] [] [] false false = false.
+Proof. repeat split; vm_compute; reflexivity. Qed.
 Example C15_authn_node_nonvacuous :
   authn_refuses true 1 1 21 [] [] [22; 21] false true = false
   /\ authn_refuses true 1 1 21 [] [] [] false true = true.
@@ -131,6 +141,13 @@ Theorem C15_authn :
     policy_ok peer_addr (known_dns_name passive peer_name peer_addr) node ips dnss uris rh rn.
 Proof. exact authn_sound. Qed.
 Print Assumptions C15_authn.
+(* empty connect name: no DNS name is known, DNS SANs authenticate nothing *)
+Example C15_authn_empty_dns_name :
+  authn_refuses false 0 1 21 [] [12] [] true false = true
+  /\ authn_refuses false 0 1 21 [] [0] [] true false = true
+  /\ authn_refuses false 0 1 21 [] [12] [] false false = false
+  /\ authn_refuses false 0 1 21 [1] [12] [] true false = false.
+Proof. repeat split; vm_compute; reflexivity. Qed.
 Example C15_authn_nonvacuous :
   (* active by name, host+node required, everything matches *)
   authn_refuses false 11 1 21 [] [11] [21] true true = false
